@@ -151,7 +151,7 @@ pub fn run(o: &Opts) -> i32 {
         }
     };
     let sz = sizes(&o.tier);
-    let cases = build(&CorpusSpec { seed: o.seed, generated: sz.generated, mutated: sz.mutated }, &o.repo, &o.verif);
+    let cases = build(&CorpusSpec { seed: o.seed, generated: sz.generated, mutated: sz.mutated, layout: sz.layout }, &o.repo, &o.verif);
     let thorough = o.tier == "thorough";
     let k_seeds = if thorough { 6 } else { 2 };
     let fault_runs_per_case = if thorough { 4 } else { 1 };
